@@ -1411,10 +1411,26 @@ mod c03 {
         v
     }
 
+    /// size of the SCION header of a model, counted from the header specification (12-byte common header, two
+    /// 8-byte ISD-AS, the host addresses, the path: empty 0 / one-hop 8 + 2*12 / standard 4 + 8 per info field +
+    /// 12 per hop field / any other type its opaque bytes) - never from the crate's `required_size`
+    pub fn spec_header_size(h: &ScionPacketHeader) -> usize {
+        let host = |a: &WireHostAddr| match a { WireHostAddr::V4(_) | WireHostAddr::Svc(_) => 4, WireHostAddr::V6(_) => 16, WireHostAddr::Unknown { bytes, .. } => bytes.len() };
+        let path = match &h.path {
+            DpPath::Empty => 0,
+            DpPath::OneHop(_) => 8 + 2 * 12,
+            DpPath::Standard(s) => 4 + 8 * s.segments.len() + 12 * s.segments.iter().map(|g| g.hop_fields.len()).sum::<usize>(),
+            DpPath::Unsupported { data, .. } => data.len(),
+        };
+        12 + 16 + host(&h.address.dst_host_addr) + host(&h.address.src_host_addr) + path
+    }
+
     // ---- representability (what the wire format can carry), independent of the crate ----
     pub fn unrepresentable(m: &Model) -> Option<&'static str> {
-        let hs = m.header.required_size();
-        let ps = match &m.pay { Pay::Raw(b) => b.len(), Pay::Udp(u) => 8 + u.payload.len(), Pay::Scmp(s) => ScionPacket { header: m.header.clone(), payload: s.clone() }.required_size() - hs };
+        // HdrLen is an 8-bit count of 4-byte units: the header (hosts of up to 16 bytes included, whatever the path
+        // kind) must be a multiple of 4 and at most 255 * 4 = 1020 bytes
+        let hs = spec_header_size(&m.header);
+        let ps = match &m.pay { Pay::Raw(b) => b.len(), Pay::Udp(u) => 8 + u.payload.len(), Pay::Scmp(s) => ScionPacket { header: m.header.clone(), payload: s.clone() }.required_size() - m.header.required_size() };
         if ps > 65535 { return Some("payload-size") }
         if hs > 1020 || hs % 4 != 0 { return Some("header-size") }
         if m.header.common.flow_id >= 1 << 20 { return Some("flow-id") }
@@ -1505,7 +1521,9 @@ mod c03 {
         match rng.below(if adversarial { 8 } else { 6 }) {
             0 => DpPath::Empty,
             1 => DpPath::OneHop(OneHopPath { info: gen_info(rng), hops: [gen_hop(rng), gen_hop(rng)] }),
-            2 => { let n = *rng.pick(&[0usize, 4, 8, 40]); DpPath::Unsupported { path_type: PathType::from(*rng.pick(&[3u8, 4, 5, 100, 255])), data: rng.bytes(n) } }
+            // long opaque paths: within the limit of the path alone (984 bytes), with hosts longer than 4 bytes the
+            // header passes 1020 bytes
+            2 => { let n = *rng.pick(&[0usize, 4, 8, 40, 8, 40, 944, 964, 984]); DpPath::Unsupported { path_type: PathType::from(*rng.pick(&[3u8, 4, 5, 100, 255])), data: rng.bytes(n) } }
             3..=5 => {
                 let nseg = rng.range(1, 3) as usize;
                 let mut segments = ArrayVec::<[Segment; 3]>::new();
@@ -1620,8 +1638,53 @@ mod c03 {
         line.split(' ').filter(|t| !(t.starts_with("ucs=") || t.starts_with("scs=") || (!udp && t.starts_with("ulen=")))).map(|t| t.to_string()).collect()
     }
 
+    /// a host address by tag: `v4` | `v6` | `svc` | `u<id>.<len>` (unknown type `id` of `len` bytes)
+    fn tag_host(tag: &str, rng: &mut Rng) -> Option<WireHostAddr> {
+        Some(match tag {
+            "v4" => WireHostAddr::V4(std::net::Ipv4Addr::from(rng.next() as u32)),
+            "v6" => WireHostAddr::V6(std::net::Ipv6Addr::from(((rng.next() as u128) << 64) | rng.next() as u128)),
+            "svc" => WireHostAddr::Svc(ServiceAddr(rng.next() as u16)),
+            t => {
+                let (id, n) = t.strip_prefix('u')?.split_once('.')?;
+                let (id, n) = (id.parse::<u8>().ok()?, n.parse::<usize>().ok()?);
+                if n > 16 { return None }
+                let mut bytes = ArrayVec::<[u8; 16]>::new();
+                for b in rng.bytes(n) { bytes.push(b) }
+                WireHostAddr::Unknown { id, bytes }
+            }
+        })
+    }
+    /// host tags by wire length (4 / 8 / 12 / 16 bytes); every one is a representable type nibble
+    pub const HOST_TAGS: [&[&str]; 4] = [&["v4", "svc", "u2.4", "u3.4"], &["u0.8", "u1.8", "u2.8", "u3.8"], &["u0.12", "u1.12", "u2.12", "u3.12"], &["v6", "v6", "u1.16", "u2.16", "u3.16"]];
+    /// `hdrlimit <dst> <src> <path type> <path bytes> <raw|udp|scmp> <seed>`: a model whose header size is decided by
+    /// the host address lengths and an opaque (unsupported-type) path of the given length; everything else is drawn
+    /// from `Rng::new(seed)`.  The line is a complete, replayable description of the model (corpus / `--replay`).
+    pub fn limit_model(line: &str) -> Option<Model> {
+        let w: Vec<&str> = line.split_whitespace().collect();
+        let ["hdrlimit", dst, src, pt, plen, kind, seed] = w.as_slice() else { return None };
+        let mut rng = Rng::new(seed.parse().ok()?);
+        let (pt, plen) = (pt.parse::<u8>().ok()?, plen.parse::<usize>().ok()?);
+        if plen > 4096 { return None }
+        let (nh, pay) = match *kind {
+            "udp" => (ProtocolNumber::Udp, Pay::Udp(UdpDatagram::new(rng.next() as u16, rng.next() as u16, { let n = rng.below(40) as usize; rng.bytes(n) }))),
+            "scmp" => (ProtocolNumber::Scmp, Pay::Scmp(ScmpEchoRequest::new(rng.next() as u16, rng.next() as u16, { let n = rng.below(24) as usize; rng.bytes(n) }).into())),
+            "raw" => (ProtocolNumber::from(*rng.pick(&[6u8, 253, 0, 255])), Pay::Raw({ let n = rng.below(40) as usize; rng.bytes(n) })),
+            _ => return None,
+        };
+        let header = ScionPacketHeader {
+            common: CommonHeader { traffic_class: rng.next() as u8, flow_id: rng.next() as u32 & 0xf_ffff, next_header: nh },
+            address: AddressHeader { dst_ia: IsdAsn::from_u64(rng.next()), src_ia: IsdAsn::from_u64(rng.next()), dst_host_addr: tag_host(dst, &mut rng)?, src_host_addr: tag_host(src, &mut rng)? },
+            path: DpPath::Unsupported { path_type: PathType::from(pt), data: rng.bytes(plen) },
+        };
+        Some(Model { header, pay })
+    }
+
     /// one model: encode on both sides, spec oracle on the implementation's bytes
     pub fn model_case(cx: &mut Ctx, stream: &str, m: &Model) {
+        model_case_l(cx, stream, m, None)
+    }
+    /// `line`: a replayable corpus line that rebuilds exactly this model (`hdrlimit …`), if there is one
+    pub fn model_case_l(cx: &mut Ctx, stream: &str, m: &Model, line: Option<&str>) {
         let text = show_model(m, true);
         let unrep = unrepresentable(m);
         let (im, bytes) = impl_encode(m);
@@ -1637,9 +1700,30 @@ mod c03 {
             cx.rep.spec_fail("C03:panic:encode", &format!("try_encode_to_vec panicked: {}", cut(&im)), json!({"model": cut(&text)}));
         }
         let Some(bytes) = bytes else { return };
-        // the encoder accepted the model
+        // the encoder accepted the model.  Length fields of what was written must be truthful (on EVERY encoding the
+        // encoder hands out, whatever the model): HdrLen counts the header in 4-byte units, PayloadLen the bytes
+        // after the header, the UDP length the datagram.  Sizes are counted from the specification
+        // (`spec_header_size`) and from the number of bytes emitted, not taken from the crate or the Lean model.
+        {
+            let shs = spec_header_size(&m.header);
+            let hosts = format!("{} {}", show_host(&m.header.address.dst_host_addr), show_host(&m.header.address.src_host_addr));
+            let path = match &m.header.path { DpPath::Unsupported { path_type, data } => format!("unsupported type {} with {} opaque bytes", u8::from(*path_type), data.len()), p => { let t = show_path(p); cut(&t) } };
+            let case = |what: &str| json!({"field": what, "spec_header_size": shs, "encoded_bytes": bytes.len(), "wire_first_12_bytes": hex(&bytes[..bytes.len().min(12)]), "hosts": hosts, "path": path, "payload_kind": kind_of(m), "line": line, "model": cut(&text)});
+            if bytes.len() < 12 || bytes[5] as usize * 4 != shs {
+                let on_wire = bytes.get(5).map(|b| format!("{b} ({} bytes)", *b as usize * 4)).unwrap_or("nothing (fewer than 12 bytes written)".into());
+                cx.rep.spec_fail("C03:len-fields:hdr-len", &format!("the encoder accepted a model whose header is {shs} bytes (12 common + 16 ISD-AS + hosts + path) and wrote HdrLen = {on_wire}: the header length on the wire is not truthful{}", if shs > 1020 { " (a header above 255 * 4 = 1020 bytes does not fit the 8-bit field and must be rejected, the value wrapped)" } else { "" }), case("HdrLen"));
+            } else if bytes.len() < shs || u16::from_be_bytes([bytes[6], bytes[7]]) as usize != bytes.len() - shs {
+                cx.rep.spec_fail("C03:len-fields:payload-len", &format!("PayloadLen = {} but {} bytes were written after the {shs}-byte header", u16::from_be_bytes([bytes[6], bytes[7]]), bytes.len() as i64 - shs as i64), case("PayloadLen"));
+            } else if let Pay::Udp(u) = &m.pay {
+                let d = &bytes[shs..];
+                if d.len() < 8 || u16::from_be_bytes([d[4], d[5]]) as usize != 8 + u.payload.len() || d.len() != 8 + u.payload.len() {
+                    cx.rep.spec_fail("C03:len-fields:udp-len", &format!("UDP length field / datagram size does not equal 8 + {} payload bytes ({} bytes after the header)", u.payload.len(), d.len()), case("UDP length"));
+                }
+            }
+            cx.rep.hit("length fields checked");
+        }
         if let Some(u) = unrep {
-            cx.rep.spec_fail(&format!("C03:unrepresentable-encoded:{u}"), &format!("a model that cannot be represented on the wire ({u}) was encoded ({} bytes) instead of being rejected", bytes.len()), json!({"model": cut(&text)}));
+            cx.rep.spec_fail(&format!("C03:unrepresentable-encoded:{u}"), &format!("a model that cannot be represented on the wire ({u}) was encoded ({} bytes) instead of being rejected", bytes.len()), json!({"model": cut(&text), "line": line, "spec_header_size": spec_header_size(&m.header)}));
             return;
         }
         if bytes.len() != impl_required(m) {
@@ -1900,6 +1984,11 @@ fn probes_c03(cx: &mut Ctx) {
             model_case(cx, "probe-limits", &m);
         }
     }
+    // HdrLen is 8 bits: hosts longer than 4 bytes with an opaque path that is within the limit of the path alone
+    // (984 bytes) give a header of 1024..1044 bytes, which must be rejected; 1020 exactly is accepted
+    for l in ["hdrlimit v6 v6 3 960 raw 1", "hdrlimit v6 v6 3 964 raw 2", "hdrlimit v6 v6 4 984 scmp 3", "hdrlimit v6 v4 3 984 udp 4", "hdrlimit u1.8 u2.12 5 980 raw 5", "hdrlimit svc u0.8 255 984 udp 6", "hdrlimit u3.16 u0.12 3 964 udp 7", "hdrlimit u0.12 u0.8 3 972 raw 8"] {
+        if let Some(m) = limit_model(l) { model_case_l(cx, "probe-limits", &m, Some(l)) }
+    }
     // (open) a canonical packet whose standard path has 65 hop fields (32 + 33; header 36 + 4 + 16 + 780 = 836 bytes)
     // is accepted by the decoder, but its model cannot be re-encoded since b07ca50 (more than 64 hop fields)
     {
@@ -1951,7 +2040,7 @@ fn probes_c03(cx: &mut Ctx) {
             model_case(cx, "probe", &m);
         }
     }
-    cx.rep.hit_n("deterministic probes", 34);
+    cx.rep.hit_n("deterministic probes", 42);
 }
 
 fn run_c03(cx: &mut Ctx, args: &Args) {
@@ -1984,6 +2073,23 @@ fn run_c03(cx: &mut Ctx, args: &Args) {
         for _ in 0..args.scale(3, 12) {
             let m = gen_model(&mut rng, false, &[n]);
             model_case(cx, "mid-payload", &m);
+        }
+    }
+    // the header around the 8-bit HdrLen limit (255 * 4 = 1020 bytes) for every pair of host address lengths
+    // (4 / 8 / 12 / 16 bytes: IPv4, service, IPv6, every unknown type) with an opaque path: path lengths from just
+    // below the header limit up to and beyond the limit of the path alone (984); every payload kind
+    for _ in 0..args.scale(2, 24) {
+        for (di, dtags) in HOST_TAGS.iter().enumerate() {
+            for (si, stags) in HOST_TAGS.iter().enumerate() {
+                let exact = 1020 - 28 - 4 * (di + 1) - 4 * (si + 1);
+                let mut lens: Vec<usize> = (0..).map(|k| exact - 4 + 4 * k).take_while(|n| *n <= 988).collect();
+                if rng.chance(1, 3) { lens.push(exact + 2) }
+                for n in lens {
+                    let l = format!("hdrlimit {} {} {} {n} {} {}", rng.pick(dtags), rng.pick(stags), rng.pick(&[3u8, 4, 5, 100, 255]), rng.pick(&["raw", "udp", "scmp"]), rng.next() >> 16);
+                    let m = limit_model(&l).expect("hdrlimit line");
+                    model_case_l(cx, "header-limit", &m, Some(&l));
+                }
+            }
         }
     }
     // decoder: encodings, mutated encodings, truncations, trailing bytes
@@ -2023,6 +2129,10 @@ fn replay_line(cx: &mut Ctx, l: &str) {
         ["dec", kind, hx] => {
             if let Some(b) = unhex(hx) { c03::bytes_case(cx, "corpus", kind, &b) }
         }
+        ["hdrlimit", ..] => match c03::limit_model(l) {
+            Some(m) => c03::model_case_l(cx, "corpus", &m, Some(l)),
+            None => cx.rep.notes.push(format!("unparseable hdrlimit line: {}", &l[..l.len().min(80)])),
+        },
         _ => cx.rep.notes.push(format!("unparseable corpus line: {}", &l[..l.len().min(60)])),
     }
 }
@@ -2035,8 +2145,8 @@ fn main() {
     let rule = if args.prop == "C03" {
         "case = packet model (header with every address type incl. service / unknown 4-16 B, every path kind, raw / UDP / every SCMP kind, \
          boundary payload sizes) encoded by the real try_encode_to_vec and by the Lean model, or a byte string decoded by the real \
-         TryFromView::try_from_slice and by the Lean model; spec oracle on the implementation's bytes: announced length, dirty-buffer \
-         encode, real round trip, reference decoder written from the header spec, length fields, RFC 1071 checksum over the pseudo-header, \
+         TryFromView::try_from_slice and by the Lean model; spec oracle on the implementation's bytes: announced length, HdrLen / PayloadLen / UDP length \
+         against sizes counted from the specification on every accepted encoding, dirty-buffer encode, real round trip, reference decoder written from the header spec, length fields, RFC 1071 checksum over the pseudo-header, \
          unrepresentable models must be rejected, canonical encodings re-encode identically. Non-trivial = encode accepted or rejected for a \
          reason other than header size / decode accepted; distinct by hash of the model text / (kind, first 64 bytes)"
     } else {
